@@ -641,3 +641,160 @@ def xchg_layout(progs):
                                '%s with this vector %s and the other %s%s: %s' % (nm, STATE_TXT[cfg[0]], STATE_TXT[cfg[1]], (' (in ' + ' > '.join(where) + ')') if where else '', msg),
                                where=f['pname'], unit=prog.uname))
     return rr
+
+
+# ------------------------------------------------------------------------------------------------ the same members of StdVectorBase
+
+class PInterp(XInterp):
+    """Two StdVectorBase objects: `_storage` is a plain pointer (possibly null), no union, no inline storage."""
+
+    def ev(self, n, fr):
+        n0 = A.strip(n)
+        if isinstance(n0, dict):
+            fo = self.field(n0, fr)
+            if fo is not None and fo[1] == '_storage':
+                p = self.m.objs[fo[0]]['ptr']
+                return p if p is not None else ('null',)
+            if n0.get('k') == 'lit' and 'nullptr' in (n0.get('t') or ''):
+                return ('null',)
+        return XInterp.ev(self, n, fr)
+
+    def assign(self, lhs, rhs, fr, op='='):
+        fo = self.field(lhs, fr)
+        if fo is not None and fo[1] == '_storage':
+            v = self.ev(rhs, fr)
+            if v[0] not in ('ptr', 'null') or op != '=':
+                raise Unknown('storage pointer assigned a value the interpreter does not follow')
+            self.m.objs[fo[0]]['ptr'] = None if v[0] == 'null' else v
+            return v
+        return XInterp.assign(self, lhs, rhs, fr, op)
+
+    def cond(self, n, fr):
+        c = A.strip(n)
+        fo = self.field(c, fr) if isinstance(c, dict) else None
+        if fo is not None and fo[1] == '_storage':
+            return self.m.objs[fo[0]]['ptr'] is not None
+        return XInterp.cond(self, n, fr)
+
+    def call(self, n, fr):
+        m = self.m
+        sn, args = A.cshort(n), n.get('args', []) or []
+        if sn in ('swap', 'exchange') and len(args) == 2 and self.field(args[0], fr) and self.field(args[0], fr)[1] == '_storage':
+            oa, _ = self.field(args[0], fr)
+            if sn == 'swap':
+                fb = self.field(args[1], fr)
+                if fb is None or fb[1] != '_storage':
+                    raise Unknown('swap of the storage pointer with something else')
+                m.objs[oa]['ptr'], m.objs[fb[0]]['ptr'] = m.objs[fb[0]]['ptr'], m.objs[oa]['ptr']
+                return TOP
+            old = m.objs[oa]['ptr'] if m.objs[oa]['ptr'] is not None else ('null',)
+            nv = self.ev(args[1], fr)
+            if nv[0] not in ('ptr', 'null'):
+                raise Unknown('exchange of the storage pointer with a value the interpreter does not follow')
+            m.objs[oa]['ptr'] = None if nv[0] == 'null' else nv
+            return old
+        callee = m.prog.fns.get(n.get('fn')) if n.get('fn') else None
+        if callee is not None and callee.get('body') is not None and (callee.get('clsq') or '') == STD and callee.get('name', '').startswith('amc::vec::'):
+            if n.get('method'):
+                o = self.objof(n.get('obj'), fr)
+                if o is None:
+                    raise Unknown('member called on an object the interpreter does not follow')
+                return self.inline_on(callee, n, args, fr, o)
+            return self.inline(callee, n, args, fr)
+        return XInterp.call(self, n, fr)
+
+
+def std_xchg_layout(progs):
+    rr = RuleResult('XCHG-STD', 'swap_impl / move_construct / move_assign of StdVectorBase (amc::vector), with and without a block on either side: afterwards each '
+                                'vector holds the pointer, capacity and size it was to receive, a moved-from vector holds (null, 0, 0), the elements stay where they '
+                                'are, and the receiver\'s former elements are destroyed and its block given back exactly once with its capacity (move_assign)')
+    seen = set()
+    for prog in progs:
+        E = prog.meta.get('E')
+        if not E:
+            continue
+        for f in prog.amc_functions():
+            nm = short(f.get('name', ''))
+            ps = f.get('params', [])
+            if f.get('body') is None or f.get('clsq') != STD or nm not in ('swap_impl', 'move_construct', 'move_assign') or not ps or 'StdVectorBase' not in ps[0]['t']:
+                continue
+            bad, total, broken = None, 0, None
+            gap = ladd(ladd(ladd(KA, KB), ladd(CA, CB)), lconst(1))
+            for sa in (('E',) if nm == 'move_construct' else ('E', 'L')):
+                for sb in ('E', 'L'):
+                    cons = [dict(CA), dict(CB), ladd(KA, CA, -1), ladd(KB, CB, -1), ladd(HA, gap, -1), ladd(HB, ladd(HA, gap), -1)]
+                    cons += ([lneg(KA)] if sa == 'E' else [ladd(KA, lconst(-1))]) + ([lneg(KB)] if sb == 'E' else [ladd(KB, lconst(-1))])
+                    stack = [[]]
+                    try:
+                        while stack:
+                            trail = stack.pop()
+                            m = S.Machine(prog, f, E, trail)
+                            m.cons = [dict(c) for c in cons]
+                            m.size = {}
+                            m.bounds, m.cont = [{}, dict(HA), ladd(HA, CA), dict(HB), ladd(HB, CB)], [RAW, S.old(), RAW, S.old(), RAW]
+                            m.objs = {'this': {'words': {'_capa': dict(KA), '_size': dict(CA)}, 'ptr': ('ptr', dict(HA)) if sa == 'L' else None, 'inline': {}},
+                                      'other': {'words': {'_capa': dict(KB), '_size': dict(CB)}, 'ptr': ('ptr', dict(HB)) if sb == 'L' else None, 'inline': {}}}
+                            m.deallocs = []
+                            fr = S.Frame(f)
+                            fr.this_obj = 'this'
+                            for i, p in enumerate(ps):
+                                if 'StdVectorBase' in p['t'] and p['t'].rstrip().endswith('&'):
+                                    fr.env[('p', i)] = ('obj', 'other')
+                            ip = PInterp(m)
+                            try:
+                                try:
+                                    ip.run(f['body'], fr)
+                                except S._Ret:
+                                    pass
+                                except S._Thrown:
+                                    raise Infeasible()
+                                init = {'this': (('ptr', dict(HA)) if sa == 'L' else None, KA, CA), 'other': (('ptr', dict(HB)) if sb == 'L' else None, KB, CB)}
+                                want = {'this': init['other'], 'other': init['this'] if nm == 'swap_impl' else (None, {}, {})}
+                                for name in ('this', 'other'):
+                                    o = m.objs[name]
+                                    wp, wk, wc = want[name]
+                                    same_p = (o['ptr'] is None and wp is None) or (o['ptr'] is not None and wp is not None and m.entails_eq(o['ptr'][1], wp[1]))
+                                    if not same_p or not m.entails_eq(o['words']['_capa'], wk) or not m.entails_eq(o['words']['_size'], wc):
+                                        raise Violation('`%s` ends with (pointer %s, capacity %s, size %s); expected (%s, %s, %s) [HA / HB: the blocks of this / the other vector on entry]'
+                                                        % (name, fmt(o['ptr'][1]) if o['ptr'] else 'null', fmt(o['words']['_capa']), fmt(o['words']['_size']),
+                                                           fmt(wp[1]) if wp else 'null', fmt(wk), fmt(wc)), None)
+                                keep_a = nm == 'swap_impl'
+                                for a, b, got in m.pieces({}, None):
+                                    if not S.alive(got) or m.trivial:
+                                        continue
+                                    in_b = m.compare(a, HB) >= 0 and b is not None and m.compare(b, ladd(HB, CB)) <= 0
+                                    in_a = keep_a and m.compare(a, HA) >= 0 and b is not None and m.compare(b, ladd(HA, CA)) <= 0
+                                    if not ((in_a or in_b) and S.same_content(m, got, S.old())):
+                                        raise Violation('on return slots [%s, %s) hold %s: the elements must stay in their blocks, the receiver\'s former elements be destroyed'
+                                                        % (fmt(a), fmt(b), S.cfmt(got)), None)
+                                for a, b, got in m.pieces(HB, ladd(HB, CB)) + (m.pieces(HA, ladd(HA, CA)) if keep_a else []):
+                                    if not S.same_content(m, got, S.old()) and not m.trivial:
+                                        raise Violation('on return slots [%s, %s) hold %s; the elements of a block that changes hands must be untouched' % (fmt(a), fmt(b), S.cfmt(got)), None)
+                                want_d = [(HA, KA)] if (nm == 'move_assign' and sa == 'L') else []
+                                if len(m.deallocs) != len(want_d) or any(not (m.entails_eq(p_, wp_) and m.entails_eq(c_, wc_)) for (p_, c_), (wp_, wc_) in zip(m.deallocs, want_d)):
+                                    raise Violation('blocks given back: %s; expected %s' % ([(fmt(p_), fmt(c_)) for p_, c_ in m.deallocs] or 'none', [(fmt(p_), fmt(c_)) for p_, c_ in want_d] or 'none'), None)
+                                total += 1
+                            except Split as sp:
+                                for i in range(sp.k):
+                                    stack.append(trail + [i])
+                            except Infeasible:
+                                pass
+                            except Violation as v:
+                                bad = (str(v), v.node, sa, sb)
+                                stack = []
+                    except Unknown as e:
+                        broken = 'XCHG-STD: cannot interpret %s: %s' % (f['pname'][:100], e)
+                    if bad or broken:
+                        break
+                if bad or broken:
+                    break
+            if broken:
+                rr.broken = rr.broken or broken
+                continue
+            rr.instance('%s|%s' % (f['key'], prog.uname), {'function': f['pname'][:140], 'paths': total, 'verdict': 'violated' if bad else 'pointer, capacity, size, blocks as specified'})
+            if bad and f['key'] not in seen:
+                seen.add(f['key'])
+                msg, node, sa, sb = bad
+                TXT = {'E': 'without a block', 'L': 'with a block'}
+                rr.add(Finding('XCHG-STD', f['key'], f['loc'], '%s with this vector %s and the other %s: %s' % (nm, TXT[sa], TXT[sb], msg), where=f['pname'], unit=prog.uname))
+    return rr
